@@ -66,7 +66,7 @@ def check(ctx):
             ctx.ob("TAB.containers", n, f"{k}: rebuilt as {how}", ok, "" if ok else "rebuilt differently: element order or container type is not preserved")
     ctx.count("container_kinds", len(kinds))
     ctx.floor("container_kinds", 5)
-    other = [r for r in returns(un) if unparse(r.value) == "expr"]
+    other = [r for r in returns(un) if eqv(r.value, "expr")]
     ctx.ob("TAB.containers.other", un, "anything else is returned unchanged", len(other) == 1)
     nt = find("tsk = DataNode(None, expr)", un)
     ok = bool(nt) and has_fact(inline_facts(un, nt[0][0]), "traverse", False) is not None
@@ -90,7 +90,7 @@ def check(ctx):
     ok = bool(find("dsk[collections_token] = DataNode(collections_token, results)", rp)) and (all(Pat("simple_get(dsk, out)").match(r.value) is not None for r in returns(rp)) and bool(returns(rp))) and bool(find("dsk = repack_dsk.copy()", rp))
     ctx.ob("DELEG.repack.function", rp, "repack(results) evaluates the repack graph on the results", ok)
     rs = returns(uc)
-    ok = len(rs) == 1 and unparse(rs[0].value) == "(collections2, repack)" and bool(find("collections2 = list(collections)", uc))
+    ok = len(rs) == 1 and eqv(rs[0].value, "(collections2, repack)") and bool(find("collections2 = list(collections)", uc))
     ctx.ob("DELEG.repack.return", uc, "returns (collections in registration order, repack)", ok)
     # ---------------- compute / persist
     for fn in ("compute", "persist"):
@@ -100,7 +100,7 @@ def check(ctx):
         ctx.ob("DELEG.repack.unpack", f, f"{fn}: collections, repack = unpack_collections(*args, traverse=traverse)", ok)
         rets = [r for r in returns(f)]
         rr = [r for r in rets if isinstance(r.value, ast.Call) and call_name(r.value) == "repack"]
-        ra = [r for r in rets if unparse(r.value) == "args"]
+        ra = [r for r in rets if eqv(r.value, "args")]
         ok = bool(rr) and all(has_fact(inline_facts(f, r), "collections", False) is not None for r in ra) and len(rr) + len(ra) == len(rets)
         ctx.ob("DELEG.repack.result", f, f"{fn}: returns repack(results) (or args unchanged when there is no collection)", ok)
     cf = base.func("compute")
@@ -138,7 +138,7 @@ def check(ctx):
             bad = {p_: (b.get(p_), v) for p_, v in want.items() if b.get(p_) != v}
             ctx.ob("REBUILD.metadata", c, f"{cname}._rebuild passes {what} to the new collection ({', '.join(f'{k}={v}' for k, v in want.items())})", not bad, "" if not bad else f"not forwarded: {bad} -- the rebuilt collection loses this metadata after persist/optimize")
         pp = ci.own_methods.get("__dask_postpersist__")
-        ok = pp is not None and (all(unparse(r.value) == "(self._rebuild, ())" for r in returns(pp)) and bool(returns(pp)))
+        ok = pp is not None and (all(eqv(r.value, "(self._rebuild, ())") for r in returns(pp)) and bool(returns(pp)))
         ctx.ob("REBUILD.postpersist", pp or ci.node, f"{cname}.__dask_postpersist__ returns (self._rebuild, ())", ok)
     ctx.count("rebuild_constructor_calls", n_rb)
     ctx.floor("rebuild_constructor_calls", 3)
@@ -190,7 +190,7 @@ def check(ctx):
     ok = bool(find("args = Dict([[k, v] for k, v in zip(keyargs, valargs)])", du))
     ctx.ob("SIB.containers.dict-pairs", du, "dict keys and values are re-paired positionally", ok)
     place = [n for n in ast.walk(dk) if isinstance(n, ast.ListComp) and "placed[i] if i in placed else next(rest)" in unparse(n)]
-    ok = len(place) == 1 and unparse(place[0].generators[0].iter) == "range(len(all_keys) + len(placed))" and bool(find("rest = iter(all_keys)", dk))
+    ok = len(place) == 1 and eqv(place[0].generators[0].iter, "range(len(all_keys) + len(placed))") and bool(find("rest = iter(all_keys)", dk))
     ctx.ob("ORD.sequence-positions.merge", dk, "__dask_keys__ fills slot i with the group member recorded for i, else with the next ungrouped key: one pass over all output slots", ok, "" if ok else "the recorded positions are applied one after the other to a list that is still growing: with three or more optimizer kinds interleaved the keys land in the wrong slots")
 
 
